@@ -305,7 +305,7 @@ class Run:
             replay.setdefault("what", what)
             with open(path, "w") as f:
                 json.dump(replay, f, indent=1, default=str)
-            tail = " no-failing-input-found" if replay.get("kind") == "obligation" and not replay.get("failing_input") else ""
+            tail = " no-failing-input-found" if (replay.get("failing_input") is False or (replay.get("kind") == "obligation" and not replay.get("failing_input"))) else ""
             print(f"VIOLATION property={self.prop} replay={path}{tail}")
             print(f"  {what}")
             rc = 1
